@@ -357,9 +357,9 @@ def plan(tier: str) -> list[dict]:
         return ([{"mode": "states", "n_min": 4, "n_max": 5, "examples": 60, "cost": 4} for _ in range(5)]
                 + [{"mode": "n3", "examples": 8, "cost": 3}]
                 + [{"mode": "expected", "n_max": 4, "examples": 5, "procs": [1, 2], "cost": 6} for _ in range(3)])
-    return ([{"mode": "states", "n_min": 4, "n_max": 5, "examples": 400, "cost": 10} for _ in range(8)]
+    return ([{"mode": "states", "n_min": 4, "n_max": 5, "examples": 500, "cost": 10} for _ in range(8)]
             + [{"mode": "n3", "examples": 60, "cost": 6} for _ in range(2)]
-            + [{"mode": "expected", "n_max": 4, "examples": 20, "procs": [1, 2, 4], "cost": 12} for _ in range(6)])
+            + [{"mode": "expected", "n_max": 4, "examples": 40, "procs": [1, 2, 4], "cost": 12} for _ in range(6)])
 
 
 def run_shard(spec: dict, ctx: Ctx) -> None:
